@@ -115,4 +115,38 @@ def WFile.effFill (wf : WFile) (i : Nat) : List Int :=
 def WFile.cellsIn (wf : WFile) (n : Int) : List Nat :=
   (List.range wf.cells.length).filter (fun i => wf.effU i = n)
 
+/-! ## Well-formedness of a problem, as a decision procedure (DESIGN 5.2: "well-formedness constraints") -/
+
+def optIn (o : Option Int) (l : List Int) : Bool :=
+  match o with
+  | none => true
+  | some n => decide (n ∈ l)
+
+/-- every number written at a reference site is carried by a card of the block it refers into -/
+def WFile.refsOK (wf : WFile) : Bool :=
+  wf.cells.all (fun c =>
+    (decide (c.mat = 0) || decide (c.mat ∈ wf.numbers .mat)) &&
+    c.geom.all (fun l => decide (l.2 ∈ wf.numbers (if l.1 then CardKind.cell else CardKind.surf))) &&
+    optIn c.fillTr (wf.numbers .tr)) &&
+  wf.surfs.all (fun s => optIn s.tr (wf.numbers .tr) && optIn s.per (wf.numbers .surf)) &&
+  wf.mats.all (fun m => optIn m.mt (wf.numbers .mat))
+
+/-- every universe a cell is filled with (single entry or matrix entry) has at least one cell -/
+def WFile.fillOK (wf : WFile) : Bool :=
+  (List.range wf.cells.length).all (fun c =>
+    (wf.effFill c).all (fun u => (List.range wf.cells.length).any (fun c' => decide (wf.effU c' = u))))
+
+/-- The file is a well-formed problem: card numbers unique per block; material numbers not 0; every
+    reference exists; filled universes exist; a per-cell datum (U, FILL) is given in one block only; a
+    surface card has one pointer entry; a transformation number in a FILL stands in a cell-block FILL. -/
+def WFile.wellFormedB (wf : WFile) : Bool :=
+  decide ((wf.numbers .cell).Nodup) && decide ((wf.numbers .surf).Nodup) &&
+  decide ((wf.numbers .mat).Nodup) && decide ((wf.numbers .tr).Nodup) &&
+  wf.mats.all (fun m => decide (m.number ≠ 0)) &&
+  wf.refsOK && wf.fillOK &&
+  (!wf.uCard.isSome || wf.cells.all (fun c => c.u.isNone)) &&
+  (!wf.fillCard.isSome || wf.cells.all (fun c => c.fill.isEmpty)) &&
+  wf.surfs.all (fun s => s.tr.isNone || s.per.isNone) &&
+  wf.cells.all (fun c => c.fillTr.isNone || !c.fill.isEmpty)
+
 end MontePyVerif.Spec.Refs
